@@ -42,6 +42,9 @@ HOSTS = [
     ("f.md", Form("md-paren", "line", "[//]: # (", ")", forbid=("(", ")"), col0=True, blank_around=True, family="md")),
     ("f.md", Form("md-dquote", "line", '[//]: # "', '"', forbid=('"',), col0=True, blank_around=True, family="md")),
     ("f.xml", XML_C), ("f.go", C_BLOCK), ("f.sql", Form("dash", "line", "--")), ("f.toml", HASH),
+    # block comments nest in Rust and Kotlin: a closed inner comment first, then the tag on star-decorated lines
+    ("f.rs", Form("nested-block-star", "block", "/* /* inner */", "*/", cont=" * ", forbid=("*/", "/*"))),
+    ("f.kt", Form("nested-block-star", "block", "/* /* inner */", "*/", cont=" * ", forbid=("*/", "/*"))),
 ]
 
 
@@ -216,7 +219,7 @@ def build(r, fname, form):
         close_c()
         expected.append((t.line, t.col, exp))
         b.line_text({"f.rs": "let x = 1;", "f.py": "x = 1", "f.js": "let x = 1;", "f.java": "int x = 1;", "f.html": "<p>t</p>",
-                     "f.c": "int x = 1;", "f.md": "text", "f.xml": "<i>t</i>", "f.go": "var x = 1", "f.sql": "SELECT 1;", "f.toml": "x = 1"}[fname])
+                     "f.c": "int x = 1;", "f.md": "text", "f.xml": "<i>t</i>", "f.go": "var x = 1", "f.sql": "SELECT 1;", "f.toml": "x = 1", "f.kt": "val x = 1"}[fname])
         open_c()
         if r.random() < 0.3:
             b.raw(lookalike() + " ")
